@@ -288,7 +288,8 @@ def c10(tier='quick', seed=0):
     rng = random.Random(seed)
     R = Result('long-lived enforcer equals a fresh one', 'operation sequences over {write, write-old-name, empty, touch, delete, '
                'load, enforce} x {main file, two files in d1, one in d2}: exhaustive for short sequences over the main file '
-               'and one directory file and over two files of one directory, random up to 14 steps; plain and deprecated defaults; with and without a main file '
+               'and one directory file, over two files of one directory, and after the loss of a main file that had been loaded with a '
+               'directory override; random up to 14 steps; plain and deprecated defaults; with and without a main file '
                'at the start; modification times strictly increase on files and directories')
     ops = [(k, f) for k in ('write', 'empty', 'touch', 'delete') for f in FILES] + [('write_old', 'd1/x.yaml'), ('load', None), ('enforce', None)]
     short_ops = [(k, f) for k in ('write', 'empty', 'delete') for f in ('policy.yaml', 'd1/x.yaml')] + [('load', None)]
@@ -305,6 +306,14 @@ def c10(tier='quick', seed=0):
         fam = [list(s) for s in itertools.product(short_ops2, repeat=n)]
         nfam2 += len(fam)
         seqs += fam
+    # third exhaustive family: everything short that can happen AFTER the main file has disappeared from under a
+    # long-lived enforcer that had loaded it together with a directory override
+    gone = [('write', 'd1/x.yaml'), ('load', None), ('delete', 'policy.yaml'), ('load', None)]
+    fam3 = []
+    for n in range(1, 3 if tier == 'quick' else 4):
+        fam3 += [gone + list(s) for s in itertools.product(short_ops + [('write', 'd1/y.yaml'), ('delete', 'd1/y.yaml')], repeat=n)]
+    nfam2 += len(fam3)
+    seqs += fam3
     nrand = 120 if tier == 'quick' else 1500
     for _ in range(nrand):
         seqs.append([rng.choice(ops) for _ in range(rng.randint(4, 14))])
@@ -313,7 +322,8 @@ def c10(tier='quick', seed=0):
             for start_main in (True, False):
                 if si < len(seqs) - nrand and dk == 'deprecated' and not start_main:
                     continue
-                if len(seqs) - nrand - nfam2 <= si < len(seqs) - nrand and (dk == 'deprecated' or start_main):
+                in_fam3 = len(seqs) - nrand - len(fam3) <= si < len(seqs) - nrand
+                if len(seqs) - nrand - nfam2 <= si < len(seqs) - nrand and (dk == 'deprecated' or start_main != in_fam3):
                     continue
                 sb = Sandbox()
                 try:
@@ -375,7 +385,7 @@ def c12(tier='quick', seed=0):
     quiet()
     rng = random.Random(seed)
     R = Result('loading is idempotent and does not touch registered objects', 'interleavings (exhaustive to length 4, random to '
-               '10) of {load, forced load, enforce, edit file} across one to three enforcers (one of them without a main policy file and with an empty policy.d) with their own option values and '
+               '10) of {load, forced load, enforce, edit file} across one to three enforcers (one without a main policy file and with an empty policy.d, two reading the same files) with their own option values and '
                'files, sharing one list of RuleDefault/DeprecatedRule objects whose defaults include top-level and/or/not '
                'expressions; effective policy (printed form and node count) after k loads against one load; shared objects '
                'against a snapshot')
@@ -388,23 +398,33 @@ def c12(tier='quick', seed=0):
                   policy.RuleDefault('p:c', 'not role:z', deprecated_rule=dep2),
                   policy.RuleDefault('p:d', 'role:plain')]
     before = [describe(d) for d in shared]
-    acts = ['load', 'force', 'enforce', 'edit']
+    acts = ['load', 'force', 'enforce', 'edit', 'editmain']
     seqs = []
     L = 3 if tier == 'quick' else 4
     for n in range(1, L + 1):
         for s in itertools.product(acts, repeat=n):
             seqs.append([(a, 0) for a in s])
             seqs.append([(a, 1) for a in s])        # enforcer 1 has no main policy file and starts with an empty policy.d
+    # enforcers 0 and 2 read the SAME files with different option values: loads of one must not hide an edit from the other
+    for n in range(2, L + 1):
+        for s in itertools.product(['load', 'enforce', 'editmain'], repeat=n):
+            for pat in itertools.product([0, 2], repeat=n):
+                if len(set(pat)) == 2 and 'editmain' in s:
+                    seqs.append(list(zip(s, pat)))
     for _ in range(60 if tier == 'quick' else 600):
         seqs.append([(rng.choice(acts), rng.randrange(3)) for _ in range(rng.randint(3, 10))])
     for si, seq in enumerate(seqs):
         sbs, es = [], []
         try:
             for i in range(3):
-                sb = Sandbox()
-                sbs.append(sb)
-                sb.mkdir('d1')
-                if i != 1:
+                if i == 2:
+                    sb = sbs[0]         # the same directory, policy file and policy.d as enforcer 0
+                    sbs.append(sb)
+                else:
+                    sb = Sandbox()
+                    sbs.append(sb)
+                    sb.mkdir('d1')
+                if i == 0:
                     sb.write('policy.yaml', {'p:d': 'role:file%d' % i})
                 conf = sb.conf(policy_file='policy.yaml', policy_dirs=['d1'], enforce_new_defaults=(i == 2))
                 e = policy.Enforcer(conf)
@@ -421,6 +441,10 @@ def c12(tier='quick', seed=0):
                     r = outcome(e.load_rules, True)
                 elif a == 'enforce':
                     r = outcome(e.enforce, 'p:a', {}, {'roles': ['member']})
+                elif a == 'editmain':
+                    k[0] += 1
+                    sb.write('policy.yaml', {'p:d': 'role:main%d' % k[0], 'p:main': 'role:m%d' % k[0]})
+                    r = ('ret', None)
                 else:
                     k[0] += 1
                     sb.write('d1/o.yaml', {'p:extra': 'role:e%d' % k[0]})
@@ -452,7 +476,7 @@ def c12(tier='quick', seed=0):
                 bad = 'objects passed by the service changed: %r' % ([describe(d) for d in shared],)
             R.case(si, bad, sample={'interleaving': [str(x) for x in seq]})
         finally:
-            for sb in sbs:
+            for sb in set(sbs):
                 sb.close()
         if R.full:
             return R.d
@@ -466,19 +490,22 @@ def c11(tier='quick', seed=0):
     R = Result('deprecated-policy override table', 'renamed or same-name deprecation x same/different check strings x '
                'enforce_new_defaults x new-name override absent/present x old-name override absent/arbitrary/alias x override in '
                'the main file, in a policy directory, or in a policy directory with no main file x two new policies sharing one '
-               'predecessor x loaded fresh or after an earlier generation of the files that overrode both names; decisions on all subsets of '
+               'predecessor x loaded fresh, after an earlier generation of the files that overrode both names, or with the old name still '
+               'registered as a policy of its own before its successor; decisions on all subsets of '
                '{new, old, ovr, ovn}; complete for this space')
     R.d['exhaustive'] = True
     roles_all = ['new', 'old', 'ovr', 'ovn', 'new2']
     subsets = [list(c) for k in range(len(roles_all) + 1) for c in itertools.combinations(roles_all, k)]
     for renamed, same_str, flag, new_ovr, old_ovr, where, shared, hist in itertools.product(
             [True, False], [True, False], [True, False], [False, True], ['absent', 'arbitrary', 'alias'],
-            ['main', 'dir', 'dironly'], [False, True], ['fresh', 'overrides-removed']):
+            ['main', 'dir', 'dironly'], [False, True], ['fresh', 'overrides-removed', 'old-name-still-registered']):
         if not renamed and old_ovr != 'absent':
             continue        # same name: an old-name override is the new-name override
         if shared and not renamed:
             continue
         if hist != 'fresh' and (shared or same_str):
+            continue
+        if hist == 'old-name-still-registered' and not renamed:
             continue
         sb = Sandbox()
         try:
@@ -489,6 +516,10 @@ def c11(tier='quick', seed=0):
                 old_str = 'role:new' if same_str else 'role:old'
                 dep = policy.DeprecatedRule(old_name, old_str, deprecated_reason='r', deprecated_since='s')
                 defaults = [policy.RuleDefault('svc:new', new_str, deprecated_rule=dep)]
+                if hist == 'old-name-still-registered':
+                    # the service still registers the old name as a policy of its own, BEFORE its successor: its
+                    # default is not an operator override and must not influence the successor
+                    defaults.insert(0, policy.RuleDefault(old_name, 'role:oldreg'))
                 if shared:
                     defaults.append(policy.RuleDefault('svc:new2', 'role:new2', deprecated_rule=dep))
             content = {}
@@ -511,7 +542,7 @@ def c11(tier='quick', seed=0):
                     if where == 'dir':
                         sb.write('policy.yaml', {})
                     sb.write('d1/o.yaml', c)
-            if hist != 'fresh':
+            if hist == 'overrides-removed':
                 # an earlier generation of the files overrode both names; the operator has since edited them: only
                 # the files as they are now may influence a decision
                 put({'svc:new': 'role:prevnew', old_name: 'role:prevold'})
